@@ -47,7 +47,7 @@ PROBES = {
     'C02': ['ftp_scope_variant', 'ftp_glob', 'ftp_file_fetched', 'robots_fetch_failed', 'robots_redirected_out', 'robots_redirect_followed', 'offered_foreign_host', 'offered_upward_path', 'offered_deep', 'offered_regex_rejected', 'offered_excluded_dir',
             'offered_rejected_suffix', 'cross_host_redirect', 'waiver_used', 'retry', 'requests_attributed', 'span_hosts_allow',
             'domains', 'hostnames', 'https_only', 'tries'],
-    'C20': ['robots_disallow', 'robots_allow_all', 'robots_404', 'robots_5xx', 'robots_redirect', 'robots_redirect_to_other_origin', 'robots_with_non_utf8_bytes', 'robots_big', 'robots_netfault', 'tag_options', 'sitemaps_option', 'nofollow_page',
+    'C20': ['robots_disallow', 'robots_allow_all', 'robots_404', 'robots_5xx', 'robots_redirect', 'robots_redirect_to_other_origin', 'many_origins', 'robots_with_non_utf8_bytes', 'robots_big', 'robots_netfault', 'tag_options', 'sitemaps_option', 'nofollow_page',
             'multi_origin', 'concurrency>1', 'agent_specific_group', 'disallowed_offered'],
 }
 _COMMON = {
